@@ -101,6 +101,48 @@ def thresholdSpec (k : Kind) (px t mx : Int) : Int :=
   | .truncZeroReg => if px > t then px else 0
   | .truncZeroInv => if px > t then 0 else px
 
+/-! ### threshold_adaptive -/
+
+/-- the comparison functor `threshold_adaptive` hands to `adaptive_impl` (generated), by source = result channel type -/
+def adaptiveFunctor (c : Ch) (inverse : Bool) (px t mx cst : Int) : Option Int :=
+  match c with
+  | .u8 => some (if inverse then adapt_inv_u8_u8 px t mx cst else adapt_reg_u8_u8 px t mx cst)
+  | .u16 => some (if inverse then adapt_inv_u16_u16 px t mx cst else adapt_reg_u16_u16 px t mx cst)
+  | _ => none
+
+/-- `adaptive_impl`: the functor applied to every (pixel, local threshold) pair -/
+def adaptivePlane (c : Ch) (inverse : Bool) (mx cst : Int) (src thr : List Int) : List Int :=
+  (src.zip thr).map fun (px, t) => (adaptiveFunctor c inverse px t mx cst).getD 0
+
+/-- Spec: the documented comparison of a pixel against (local threshold − constant) -/
+def adaptiveSpec (inverse : Bool) (px t mx cst : Int) : Int :=
+  if px > t - cst then (if inverse then 0 else mx) else (if inverse then mx else 0)
+
+/-- zero-padded sample -/
+def zsample (w h : Nat) (plane : List Int) (x y : Int) : Int :=
+  if 0 ≤ x ∧ x < (w : Int) ∧ 0 ≤ y ∧ y < (h : Int) then plane.getD (y.toNat * w + x.toNat) 0 else 0
+
+/-- the k×k window around (x, y) with samples outside the image taken as zero (`boundary_option::extend_zero`,
+    the default of `convolve_1d` / `convolve_2d`) -/
+def zwindow (w h k : Nat) (plane : List Int) (x y : Nat) : List Int :=
+  ((List.range k).map fun (j : Nat) => (List.range k).map fun (i : Nat) =>
+    zsample w h plane ((x : Int) + (i : Int) - ((k / 2 : Nat) : Int)) ((y : Int) + (j : Int) - ((k / 2 : Nat) : Int))).flatten
+
+/-- Spec of the local threshold surface, `mean` method: the zero-padded k×k box mean M = S/k², computed by the code as a
+    row pass and a column pass with weights 1/k (float) whose results are each truncated to the channel type:
+    M − 2 ≤ T ≤ M, i.e. S − 2k² ≤ k²·T ≤ S (exact integers) -/
+def meanSurfaceOk (k : Nat) (window : List Int) (t : Int) : Bool :=
+  let s := window.foldl (· + ·) 0
+  let kk : Int := (k : Int) * (k : Int)
+  decide (s - 2 * kk ≤ kk * t) && decide (kk * t ≤ s)
+
+/-- Spec of the local threshold surface, `gaussian` method: a convex combination (non-negative weights normalised to 1) of the
+    zero-padded window, truncated: min − 1 ≤ T ≤ max -/
+def gaussSurfaceOk (window : List Int) (t : Int) : Bool :=
+  match window with
+  | [] => true
+  | v :: vs => decide (vs.foldl min v - 1 ≤ t) && decide (t ≤ vs.foldl max v)
+
 /-! ### Otsu -/
 
 inductive UB where
